@@ -33,6 +33,14 @@ pub struct Timing {
     /// more ignored frames than attempts the first use legitimately fails with "card not found"
     #[serde(default)]
     pub sluggish: bool,
+    /// busy (programming) time after the stop token of a multi-block write, in polls; like the busy
+    /// time after any other data block it may approach the driver's write budget (50,000)
+    #[serde(default)]
+    pub busy_stop_write: u16,
+    /// the busy signal after the stop token starts one byte late (the card drives 0xFF for one
+    /// byte first, as in the specification's timing diagram of the multiple block write)
+    #[serde(default)]
+    pub stop_gap: bool,
 }
 
 #[derive(Clone, Debug, Serialize, Deserialize, PartialEq)]
@@ -204,6 +212,7 @@ pub struct CardInner {
     pub fault_fired: bool,
     garbage: Option<u32>,
     stuck: Option<u8>,
+    frame_busy: bool,
     dead: bool,
     stuck_busy: bool,
     pub multi_writes_seen: u32,
@@ -280,6 +289,7 @@ impl SimCard {
             fault_fired: false,
             garbage: None,
             stuck: None,
+            frame_busy: false,
             dead: false,
             stuck_busy: false,
             multi_writes_seen: 0,
@@ -725,17 +735,27 @@ impl CardInner {
                         if was_busy && cmd != 0 && cmd != 12 {
                             self.v(format!("CMD{} frame started while the card was signalling busy", cmd));
                         }
+                        self.frame_busy = self.busy > 0;
                         self.frame.push(mosi);
                     } else if mosi != 0xFF {
                         self.v(format!("unexpected byte {:#04x} on MOSI outside any frame", mosi));
                     }
                 } else {
                     self.frame.push(mosi);
+                    if self.busy > 0 {
+                        self.frame_busy = true;
+                    }
                     if self.frame.len() == 6 {
                         let mut f = [0u8; 6];
                         f.copy_from_slice(&self.frame);
                         self.frame.clear();
-                        self.command(f);
+                        let cmd = f[0] & 0x3F;
+                        if self.frame_busy && cmd != 0 && cmd != 12 && self.garbage.is_none() {
+                            // a card that is programming does not take commands: the frame is lost
+                            self.v(format!("CMD{} frame sent while the card was busy", cmd));
+                        } else {
+                            self.command(f);
+                        }
                     }
                 }
             }
@@ -768,10 +788,11 @@ impl CardInner {
                             self.v("stop token sent while the card was busy".to_string());
                         }
                         self.rx = Rx::Command;
-                        // the card goes busy with the next byte (no idle gap is modelled: a
-                        // host that sees 0xFF there and proceeds would be acting on what the
-                        // card signalled)
-                        self.busy = self.timing.busy_stop as u32;
+                        // the card goes busy: at once, or after one more idle byte
+                        self.busy = (self.timing.busy_stop as u32).max(self.timing.busy_stop_write as u32);
+                        if self.timing.stop_gap && self.busy > 0 {
+                            self.out.push_back(0xFF);
+                        }
                     }
                     t => {
                         if t & 0xC0 == 0x40 {
